@@ -445,56 +445,73 @@ Proof.
 Qed.
 
 (* cup with the three shapes of parameters the parser delivers *)
+Definition cup_fin (t1 : term) : term :=
+  let t2 := if t_col t1 >? width t1 - 1 then set_col t1 (width t1 - 1) else t1 in
+  let t3 := if t_row t2 >? height t2 - 1 then set_row t2 (height t2 - 1) else t2 in
+  let t4 := if t_col t3 <? 0 then set_col t3 0 else t3 in
+  if t_row t4 <? 0 then set_row t4 0 else t4.
+
+Lemma cup_eval0 : cup t [] = TOk (cup_fin (set_cursor (set_last t false) 0 0)).
+Proof. reflexivity. Qed.
+Lemma cup_eval1 x : cup t [[x]] = TOk (cup_fin (set_cursor (set_last t false) (i64 (x - 1)) 0)).
+Proof. reflexivity. Qed.
+Lemma cup_eval2 x y : cup t [[x]; [y]] = TOk (cup_fin (set_cursor (set_last t false) (i64 (x - 1)) (i64 (y - 1)))).
+Proof. reflexivity. Qed.
+
+Lemma cup_fin_sim r c R C :
+  pv_ok (pval r) -> pv_ok (pval c) ->
+  R = pval r - 1 \/ (R = 0 /\ pval r = 0) -> C = pval c - 1 \/ (C = 0 /\ pval c = 0) ->
+  Inv w h (cup_fin (set_cursor (set_last t false) R C)) /\
+  abs (cup_fin (set_cursor (set_last t false) R C))
+  = set_pos (abs t) (Z.min (dflt (pval r) - 1) (h - 1)) (Z.min (dflt (pval c) - 1) (w - 1)) false.
+Proof.
+  intros Hr Hc ER EC. unfold pv_ok in *.
+  pose proof (Inv_height w h t HI) as Hh. pose proof (Inv_width w h t HI) as Hw.
+  unfold cup_fin; cbv zeta.
+  change (width (set_cursor (set_last t false) R C)) with (width t). rewrite Hw.
+  cbn [t_col t_row set_cursor].
+  assert (E : forall b : bool, (if b then set_col (set_cursor (set_last t false) R C) (w - 1) else set_cursor (set_last t false) R C)
+           = set_cursor (set_last t false) R (if b then w - 1 else C)) by (intros []; reflexivity).
+  rewrite E. change (height (set_cursor (set_last t false) R (if C >? w - 1 then w - 1 else C))) with (height t). rewrite Hh.
+  cbn [t_col t_row set_cursor].
+  set (C1 := if C >? w - 1 then w - 1 else C).
+  assert (E2 : forall b : bool, (if b then set_row (set_cursor (set_last t false) R C1) (h - 1) else set_cursor (set_last t false) R C1)
+           = set_cursor (set_last t false) (if b then h - 1 else R) C1) by (intros []; reflexivity).
+  rewrite E2. cbn [t_col t_row set_cursor].
+  set (R1 := if R >? h - 1 then h - 1 else R).
+  assert (E3 : forall b : bool, (if b then set_col (set_cursor (set_last t false) R1 C1) 0 else set_cursor (set_last t false) R1 C1)
+           = set_cursor (set_last t false) R1 (if b then 0 else C1)) by (intros []; reflexivity).
+  rewrite E3. cbn [t_col t_row set_cursor].
+  set (C2 := if C1 <? 0 then 0 else C1).
+  assert (E4 : forall b : bool, (if b then set_row (set_cursor (set_last t false) R1 C2) 0 else set_cursor (set_last t false) R1 C2)
+           = set_cursor (set_last t false) (if b then 0 else R1) C2) by (intros []; reflexivity).
+  rewrite E4.
+  set (R2 := if R1 <? 0 then 0 else R1).
+  assert (HR2 : R2 = Z.min (dflt (pval r) - 1) (h - 1)).
+  { unfold R2, R1, dflt. destruct HI as [? ? ?]. repeat case_if; lia. }
+  assert (HC2 : C2 = Z.min (dflt (pval c) - 1) (w - 1)).
+  { unfold C2, C1, dflt. destruct HI as [? ? ?]. repeat case_if; lia. }
+  rewrite HR2, HC2. clear HR2 HC2 R2 C2 E4 E3 E2 E R1 C1.
+  split.
+  - apply (Inv_frame w h t); auto.
+    apply WFs_set_cursor; [now apply WFs_set_last | |]; destruct HI as [? ? ?]; unfold dflt in *; repeat case_if; lia.
+  - apply abs_move; auto.
+Qed.
+
 Lemma sim_cup r c : par_ok r = true -> par_ok c = true ->
   exists t', cup t (p2 r c) = TOk t' /\ Inv w h t' /\
     abs t' = set_pos (abs t) (Z.min (dflt (pval r) - 1) (h - 1)) (Z.min (dflt (pval c) - 1) (w - 1)) false.
 Proof.
-  intros Hr Hc. apply par_ok_pv in Hr; apply par_ok_pv in Hc. unfold pv_ok in *.
-  pose proof (Inv_height w h t HI) as Hh. pose proof (Inv_width w h t HI) as Hw.
-  assert (G : forall R C, -1 <= R < 9223372036854775808 -> -1 <= C < 9223372036854775808 ->
-     R = pval r - 1 \/ (R = 0 /\ pval r = 0) -> C = pval c - 1 \/ (C = 0 /\ pval c = 0) ->
-     let t1 := set_cursor (set_last t false) R C in
-     let t2 := if t_col t1 >? width t1 - 1 then set_col t1 (width t1 - 1) else t1 in
-     let t3 := if t_row t2 >? height t2 - 1 then set_row t2 (height t2 - 1) else t2 in
-     let t4 := if t_col t3 <? 0 then set_col t3 0 else t3 in
-     let t5 := if t_row t4 <? 0 then set_row t4 0 else t4 in
-     Inv w h t5 /\ abs t5 = set_pos (abs t) (Z.min (dflt (pval r) - 1) (h - 1)) (Z.min (dflt (pval c) - 1) (w - 1)) false).
-  { intros R C HR HC ER EC; cbv zeta.
-    change (width (set_cursor (set_last t false) R C)) with (width t). rewrite Hw.
-    cbn [t_col t_row set_cursor].
-    assert (E : forall b, (if b then set_col (set_cursor (set_last t false) R C) (w - 1) else set_cursor (set_last t false) R C)
-             = set_cursor (set_last t false) R (if b then w - 1 else C)) by (intros []; reflexivity).
-    rewrite E. change (height (set_cursor (set_last t false) R (if C >? w - 1 then w - 1 else C))) with (height t). rewrite Hh.
-    cbn [t_col t_row set_cursor].
-    set (C1 := if C >? w - 1 then w - 1 else C).
-    assert (E2 : forall b, (if b then set_row (set_cursor (set_last t false) R C1) (h - 1) else set_cursor (set_last t false) R C1)
-             = set_cursor (set_last t false) (if b then h - 1 else R) C1) by (intros []; reflexivity).
-    rewrite E2. cbn [t_col t_row set_cursor].
-    set (R1 := if R >? h - 1 then h - 1 else R).
-    assert (E3 : forall b, (if b then set_col (set_cursor (set_last t false) R1 C1) 0 else set_cursor (set_last t false) R1 C1)
-             = set_cursor (set_last t false) R1 (if b then 0 else C1)) by (intros []; reflexivity).
-    rewrite E3. cbn [t_col t_row set_cursor].
-    set (C2 := if C1 <? 0 then 0 else C1).
-    assert (E4 : forall b, (if b then set_row (set_cursor (set_last t false) R1 C2) 0 else set_cursor (set_last t false) R1 C2)
-             = set_cursor (set_last t false) (if b then 0 else R1) C2) by (intros []; reflexivity).
-    rewrite E4.
-    set (R2 := if R1 <? 0 then 0 else R1).
-    assert (HR2 : R2 = Z.min (dflt (pval r) - 1) (h - 1)).
-    { unfold R2, R1, dflt. destruct HI as [? ? ?]. repeat case_if; lia. }
-    assert (HC2 : C2 = Z.min (dflt (pval c) - 1) (w - 1)).
-    { unfold C2, C1, dflt. destruct HI as [? ? ?]. repeat case_if; lia. }
-    split.
-    - apply (Inv_frame w h t); auto.
-      apply WFs_set_cursor; [now apply WFs_set_last | |]; destruct HI as [? ? ?]; unfold dflt in *; repeat case_if; lia.
-    - apply abs_move; auto. }
-  unfold cup; cbv zeta. destruct r as [|x]; destruct c as [|y]; cbn [p2 pval] in *.
-  - cbn. eexists; split; [reflexivity|]. apply (G 0 0); try lia; right; split; reflexivity.
-  - cbn. rewrite !i64_id by lia. eexists; split; [reflexivity|].
-    apply (G (0 - 1) (y - 1)); try lia; left; reflexivity.
-  - cbn. rewrite !i64_id by lia. eexists; split; [reflexivity|].
-    apply (G (x - 1) 0); try lia; [left; reflexivity | right; split; reflexivity].
-  - cbn. rewrite !i64_id by lia. eexists; split; [reflexivity|].
-    apply (G (x - 1) (y - 1)); try lia; left; reflexivity.
+  intros Hr Hc. apply par_ok_pv in Hr; apply par_ok_pv in Hc.
+  destruct r as [|x]; destruct c as [|y]; cbn [p2 pval] in *; unfold pv_ok in *.
+  - rewrite cup_eval0. eexists; split; [reflexivity|].
+    apply (cup_fin_sim Om Om); unfold pv_ok; cbn [pval]; try lia; first [left; reflexivity | right; split; reflexivity].
+  - rewrite cup_eval2, !i64_id by lia. eexists; split; [reflexivity|].
+    apply (cup_fin_sim Om (Ex y)); unfold pv_ok; cbn [pval]; try lia; first [left; reflexivity | right; split; reflexivity].
+  - rewrite cup_eval1, !i64_id by lia. eexists; split; [reflexivity|].
+    apply (cup_fin_sim (Ex x) Om); unfold pv_ok; cbn [pval]; try lia; first [left; reflexivity | right; split; reflexivity].
+  - rewrite cup_eval2, !i64_id by lia. eexists; split; [reflexivity|].
+    apply (cup_fin_sim (Ex x) (Ex y)); unfold pv_ok; cbn [pval]; try lia; first [left; reflexivity | right; split; reflexivity].
 Qed.
 
 End Moves2.
